@@ -30,6 +30,19 @@ def solve(fs, timeout_ms):
     return r, s, time.time() - t
 
 
+def solve_assert(aass, apc, af, timeout):
+    """intermediate obligation (loop invariant, callee pre-condition): cheapest first - the goal alone (frames that hold by
+    construction), the quantifier-free facts only, everything, everything + generic instances at the goal's constants"""
+    r_, s_, dt_ = solve([z3.Not(af)], 500)
+    if r_ != z3.unsat:
+        r_, s_, dt_ = solve([a_ for a_ in aass if _qf(B(a_))] + list(apc) + [z3.Not(af)], 2000)
+    if r_ != z3.unsat:
+        r_, s_, dt_ = solve(list(aass) + list(apc) + [z3.Not(af)], timeout)
+    if r_ == z3.unknown:
+        r_, s_, dt_ = solve(list(aass) + list(apc) + generic_instances([B(a_) for a_ in aass], [c_ for c_ in _consts(af)]) + [z3.Not(af)], 3 * timeout)
+    return r_, s_, dt_
+
+
 def _qf(f):
     """quantifier-free?"""
     seen = set()
@@ -359,7 +372,7 @@ def verify_mutator(obs, world, cname, mname, contract, pid_map, timeout=20000, i
         # intermediate obligations of this path (callee pre-conditions, loop invariants)
         for aname, apc, aass, af in p.asserts:
             if pid_map.get("C09"):
-                r_, s_, dt_ = solve(list(aass) + list(apc) + [z3.Not(af)], timeout)
+                r_, s_, dt_ = solve_assert(aass, apc, af, timeout)
                 nm = f"C09/{base}/{aname}#path{i}"
                 obs.append(Ob(nm, kind, DISCHARGED if r_ == z3.unsat else (FAILED if r_ == z3.sat else UNDECIDED), "z3", dt_,
                               detail="" if r_ == z3.unsat else "intermediate obligation fails"))
@@ -376,10 +389,24 @@ def flush(obs, pending, pre, instances, base, i, kind, p, sym, raised, timeout):
             if not any(x.eq(y) for y in sk):
                 sk.append(x)
     hyp = [B(f) for f in pre]
+    loop_ass = p.handles.get("loop_ass") or set()
+    hyp_core = [f for f in hyp if f.get_id() not in loop_ass] if loop_ass else None
     for pid, clause, fs, what, sk_ in pending:
         name = f"{pid}/{base}/{clause}#path{i}"
         t = time.time()
         r = None
+        if hyp_core is not None:
+            # clauses about parts of the heap no loop touches follow without the loop invariants (fewer hypotheses: sound, and stable)
+            solver = z3.Solver()
+            solver.set("timeout", min(timeout, 3000))
+            solver.set("auto_config", False)
+            solver.set("mbqi", False)
+            solver.add(*hyp_core)
+            for f in fs:
+                solver.add(B(f))
+            if solver.check() == z3.unsat:
+                obs.append(Ob(name, kind, DISCHARGED, "z3", time.time() - t, evaluations=1 if kind == "bounded" else 0))
+                continue
         # stage A: the quantified invariant with E-matching only (milliseconds when it works);
         # stage B/C: plus ground instances of the invariant at the clause's Skolem constants and the arguments
         for attempt in range(3):
@@ -482,7 +509,7 @@ def verify_query(obs, world, cname, qname, contract, timeout=20000):
         kind = "bounded" if hd.get("bounded") else "proof"
         pid_ = getattr(contract, "pid", "C19")
         for aname, apc, aass, af in p.asserts:
-            r_, s_, dt_ = solve(list(aass) + list(apc) + [z3.Not(af)], timeout)
+            r_, s_, dt_ = solve_assert(aass, apc, af, timeout)
             obs.append(Ob(f"{pid_}/{base}/{aname}#path{i}", kind, DISCHARGED if r_ == z3.unsat else (FAILED if r_ == z3.sat else UNDECIDED), "z3", dt_,
                           detail="" if r_ == z3.unsat else "intermediate obligation fails"))
         if p.outcome[0] == "loopstep":
@@ -667,7 +694,7 @@ def _model_dict(solver, terms):
         return None
 
 
-def run_derivation(world, cname, contract, iter_bound=1, chg_one_slot=False, loop_contracts=None, callee_contracts=None):
+def run_derivation(world, cname, contract, iter_bound=1, chg_one_slot=False, loop_contracts=None, callee_contracts=None, focus_loop=None):
     it = Interp(world)
     GM.install(it)
     it.prune = prune
@@ -682,6 +709,7 @@ def run_derivation(world, cname, contract, iter_bound=1, chg_one_slot=False, loo
         interp.state["iter_bound"] = iter_bound
         interp.state["chg_one_slot"] = chg_one_slot
         interp.state["loop_contracts"] = loop_contracts
+        interp.state["focus_loop"] = focus_loop
         h = heap_of(interp)
         g = GM.sym_graph(interp, cname, "g_")
         interp.assume(h.A0 >= 0)
@@ -710,6 +738,8 @@ def run_derivation(world, cname, contract, iter_bound=1, chg_one_slot=False, loo
             handles["res"] = res
         finally:
             handles["bounded"] = bool(interp.state.get("bounded_iteration"))
+            handles["focused"] = bool(interp.state.get("focused"))
+            handles["loop_ass"] = set(interp.state.get("loop_ass", ()))
             handles["ground"] = (list(interp.state.get("ground_ints", [])), list(interp.state.get("ground_bonds", [])))
         return res
 
@@ -735,10 +765,10 @@ def fresh_clauses(vR: "GM.View", A0, cname):
 
 
 def verify_derivation(obs, world, cname, dname, contract, pid, timeout=20000, iter_bound=1, chg_one_slot=False, want=("view", "wf", "fresh", "source"), loop_contracts=None,
-                      callee_contracts=None):
+                      callee_contracts=None, focus_loop=None):
     base = f"{REL[cname]}:{cname}.{dname}"
     try:
-        paths = run_derivation(world, cname, contract, iter_bound, chg_one_slot, loop_contracts, callee_contracts)
+        paths = run_derivation(world, cname, contract, iter_bound, chg_one_slot, loop_contracts, callee_contracts, focus_loop)
     except OutOfSubset as e:
         obs.append(Ob(f"E1/{base}", "proof", ERROR, detail=f"out of subset: {e}"))
         return
@@ -746,8 +776,11 @@ def verify_derivation(obs, world, cname, dname, contract, pid, timeout=20000, it
         obs.append(Ob(f"E1/{base}", "proof", ERROR, detail="no paths"))
         return
     comps = components_for(cname)
-    for i, p in enumerate(paths):
+    for i_, p in enumerate(paths):
+        i = i_ if focus_loop is None else f"{i_}@L{focus_loop}"  # path labels stay unique across the per-loop tasks
         hd = p.handles
+        if focus_loop and not hd.get("focused"):
+            continue  # fewer loops than focus_loop on this path: covered by the other tasks
         if "v0" not in hd:
             obs.append(Ob(f"E1/{base}#path{i}", "proof", ERROR, detail="path ended before the call"))
             continue
@@ -786,9 +819,7 @@ def verify_derivation(obs, world, cname, dname, contract, pid, timeout=20000, it
             pending.append((pid_, clause, fs, what, list(skolems)))
 
         for aname, apc, aass, af in p.asserts:
-            r_, s_, dt_ = solve(list(aass) + list(apc) + [z3.Not(af)], timeout)
-            if r_ == z3.unknown:
-                r_, s_, dt_ = solve(list(aass) + list(apc) + generic_instances([B(a_) for a_ in aass], [c_ for c_ in _consts(af)]) + [z3.Not(af)], 3 * timeout)
+            r_, s_, dt_ = solve_assert(aass, apc, af, timeout)
             obs.append(Ob(f"{pid}/{base}/{aname}#path{i}", kind, DISCHARGED if r_ == z3.unsat else (FAILED if r_ == z3.sat else UNDECIDED), "z3", dt_,
                           detail="" if r_ == z3.unsat else "intermediate obligation fails"))
         if p.outcome[0] == "loopstep":
@@ -876,8 +907,13 @@ def for_hook(interp, s, fr, iterable):
             fr.env[name] = H.SetRef(H.SET_TYPES[tname], h.s_new(H.SET_TYPES[tname]))
     ctx = LoopCtx(interp, fr, g, h.snapshot(), C)
     empty = z3.K(esort, z3.BoolVal(False))
-    for name, f in lc.inv(ctx, empty):
-        interp.oblige(f"loop{key[2]}-invariant-holds-initially/{name}", f)
+    # focus_loop = n: only the n-th loop reached is checked (init + generic step), the others are summarised by their
+    # invariants; focus_loop = 0: every loop summarised, the path runs to the end (lets the loops be verified in parallel)
+    focus = interp.state.get("focus_loop")
+    nth = interp.state["n_loops"]
+    if focus is None or focus == nth:
+        for name, f in lc.inv(ctx, empty):
+            interp.oblige(f"loop{key[2]}-invariant-holds-initially/{name}", f)
     # havoc everything the body may modify
     for n in lc.modifies_dict_dom:
         h.dom[n] = z3.Const(f"dom_{n}!{tag}", H.DICT_TYPES[n].dom_sort)
@@ -887,11 +923,13 @@ def for_hook(interp, s, fr, iterable):
         h.mem[n] = z3.Const(f"mem_{n}!{tag}", H.SET_TYPES[n].mem_sort)
     if getattr(lc, "allocates", False):
         h.havoc_alloc(interp, tag)
-    if interp.decide(z3.Bool(f"generic_iteration!{tag}")):
+    if (focus == nth) if focus is not None else interp.decide(z3.Bool(f"generic_iteration!{tag}")):
+        interp.state["focused"] = True
         done = z3.Const(f"done!{tag}", z3.ArraySort(esort, z3.BoolSort()))
         x = z3.Const(f"x!{tag}", esort)
         for name, f in lc.inv(ctx, done):
             interp.assume(f)
+            interp.state.setdefault("loop_ass", set()).add(B(f).get_id())
         interp.assume(z3.And(z3.Select(C, x), z3.Not(z3.Select(done, x))))
         H.note_ground(interp, x)
         if hasattr(lc, "hints"):
@@ -911,5 +949,6 @@ def for_hook(interp, s, fr, iterable):
         raise LoopStepDone()
     for name, f in lc.inv(ctx, C):
         interp.assume(f)
+        interp.state.setdefault("loop_ass", set()).add(B(f).get_id())
     interp.block(s.orelse, fr)
     return None
